@@ -25,6 +25,7 @@ type driver struct {
 	next    int
 	cur     model.Heap
 	big     bool
+	bigObj  bool
 	maxList int
 	w       *bufio.Writer
 	steps   int
@@ -71,7 +72,7 @@ func (d *driver) children(x any) (out []any) {
 
 // postorder binds the unknown containers below x children first (the order of CopyVal in Heap.tla)
 func (d *driver) postorder(x any, depth int) {
-	if !isContainer(x) || depth > 50 {
+	if !isContainer(x) || depth > 100000 {
 		return
 	}
 	if _, ok := d.real.Rev[x]; ok {
@@ -320,6 +321,27 @@ func (d *driver) pickOp() (model.Op, bool) {
 			return o, true
 		}
 	}
+	if d.rng.Intn(12) == 0 {
+		all := append(append([]int{}, lists...), objs...)
+		r := all[d.rng.Intn(len(all))]
+		switch d.rng.Intn(3) {
+		case 0:
+			if d.real.Derived == 0 {
+				same := lists
+				if d.cur[r-1].T == "O" {
+					same = objs
+				}
+				o := mk("Equals", r)
+				o.J = same[d.rng.Intn(len(same))]
+				return o, true
+			}
+		case 1:
+			o := mk("ForEach", r)
+			o.I = d.rng.Intn(9)
+			return o, true
+		}
+		return mk("NativeCheck", r), true
+	}
 	useList := len(objs) == 0 || (len(lists) > 0 && d.rng.Intn(5) < 3)
 	if useList {
 		r := lists[d.rng.Intn(len(lists))]
@@ -419,6 +441,47 @@ func (d *driver) pickOp() (model.Op, bool) {
 	}
 	r := objs[d.rng.Intn(len(objs))]
 	key := func() model.Val { return model.Val{K: "str", V: 1 + d.rng.Intn(d.nkeys)} }
+	if d.bigObj {
+		switch c := d.rng.Intn(12); {
+		case c < 4: // bulk Set
+			o := mk("Set", r)
+			for i := 1 + d.rng.Intn(d.nkeys); i > 0; i-- {
+				o.Vs = append(o.Vs, key(), d.scalar())
+			}
+			return o, true
+		case c < 8: // bulk Unset (one call removes many fields)
+			o := mk("Unset", r)
+			present := []int{}
+			for k, v := range d.cur[r-1].E {
+				if v.K != "absent" {
+					present = append(present, k+1)
+				}
+			}
+			d.rng.Shuffle(len(present), func(i, j int) { present[i], present[j] = present[j], present[i] })
+			n := d.rng.Intn(len(present) + 1)
+			o.Ks = append(o.Ks, present[:n]...)
+			if d.rng.Intn(3) == 0 {
+				o.Ks = append(o.Ks, key().V)
+			}
+			return o, true
+		case c < 9: // Pluck with as many arguments as there are fields, some of them repeated
+			o := mk("Pluck", r)
+			present := []int{}
+			for k, v := range d.cur[r-1].E {
+				if v.K != "absent" {
+					present = append(present, k+1)
+				}
+			}
+			for i := 0; i < len(present); i++ {
+				o.Ks = append(o.Ks, present[d.rng.Intn(len(present))])
+			}
+			return o, true
+		case c < 10:
+			o := mk("ForEach", r)
+			o.I = d.rng.Intn(9)
+			return o, true
+		}
+	}
 	switch c := d.rng.Intn(20); {
 	case c < 6:
 		o := mk("Set", r)
@@ -436,6 +499,9 @@ func (d *driver) pickOp() (model.Op, bool) {
 	case c < 9:
 		return mk("ClearO", r), true
 	case c < 11:
+		if d.bigObj {
+			return mk("CloneO", r), true
+		}
 		return mk([]string{"Keys", "Values"}[d.rng.Intn(2)], r), true
 	case c < 12:
 		o := mk("Pluck", r)
@@ -511,6 +577,12 @@ func (d *driver) assign(o model.Op, panicked bool, ret any) model.Val {
 	case "NewList", "NewListOf", "NewObject", "SubList", "Concat", "FilterAll", "MapId", "Keys", "Values", "Pluck", "MapIdO":
 		d.bindNew(ret)
 	}
+	if b, ok := ret.(bool); ok && (o.Op == "Equals" || o.Op == "NativeCheck") {
+		if b {
+			return model.Val{K: "bool", V: 1}
+		}
+		return model.Val{K: "bool", V: 0}
+	}
 	if ret == nil {
 		return none
 	}
@@ -578,6 +650,8 @@ func cmdDrive(args []string) int {
 	nkeys := fs.Int("nkeys", 4, "key tokens")
 	derived := fs.Int("derived", 0, "0 plain, 1/2: containers are derived structs")
 	summary := fs.String("out", "", "summary file")
+	bigObj := fs.Bool("bigobj", false, "objects with up to -nkeys generated keys, bulk Set/Unset/Pluck (no Keys/Values)")
+	scenarios := fs.Bool("scenarios", false, "append scripted scenarios: Equals on lists of ~2050 elements, nesting chains of depth ~140/260")
 	fs.Parse(args)
 	f, err := os.Create(*outTrace)
 	if err != nil {
@@ -590,11 +664,16 @@ func cmdDrive(args []string) int {
 	run := func(p int, big bool, nsteps int) {
 		rng := rand.New(rand.NewSource(*seed*1000003 + int64(p)))
 		t := conc.NewTF(*seed+int64(p), *nkeys)
-		d := &driver{rng: rng, real: heapx.New(t, nil, *nkeys, *derived), nkeys: *nkeys, next: 1, big: big, maxList: 40, w: w}
+		gen := 0
+		if *bigObj {
+			t = conc.NewGen(*nkeys)
+			gen = 1
+		}
+		d := &driver{rng: rng, real: heapx.New(t, nil, *nkeys, *derived), nkeys: *nkeys, next: 1, big: big, bigObj: *bigObj, maxList: 40, w: w}
 		if big {
 			d.maxList = 700
 		}
-		fmt.Fprintf(w, "{\"t\":\"reset\",\"nkeys\":%d,\"derived\":%d,\"cseed\":%d}\n", *nkeys, *derived, *seed+int64(p))
+		fmt.Fprintf(w, "{\"t\":\"reset\",\"nkeys\":%d,\"derived\":%d,\"cseed\":%d,\"gen\":%d}\n", *nkeys, *derived, *seed+int64(p), gen)
 		logged := func(o model.Op) {
 			if !d.real.Executable(o) {
 				return
@@ -680,6 +759,82 @@ func cmdDrive(args []string) int {
 	for p := 0; p < *bigPrograms; p++ {
 		run(10000+p, true, *bigSteps)
 	}
+	if *scenarios {
+		none := model.Val{K: "none"}
+		scen := func(p int, body func(d *driver, logged func(model.Op) model.Val)) {
+			rng := rand.New(rand.NewSource(*seed*7 + int64(p)))
+			t := conc.NewTF(*seed+int64(p), *nkeys)
+			d := &driver{rng: rng, real: heapx.New(t, nil, *nkeys, *derived), nkeys: *nkeys, next: 1, big: true, maxList: 1 << 30, w: w}
+			fmt.Fprintf(w, "{\"t\":\"reset\",\"nkeys\":%d,\"derived\":%d,\"cseed\":%d,\"gen\":0}\n", *nkeys, *derived, *seed+int64(p))
+			logged := func(o model.Op) model.Val {
+				panicked, ret, _ := d.real.Exec(o)
+				rv := d.assign(o, panicked, ret)
+				prev := d.cur
+				d.cur = d.project()
+				d.logStep(o, panicked, rv, prev)
+				return rv
+			}
+			body(d, logged)
+			total += d.steps
+			aliens += d.alien
+			mx := 0
+			for _, c := range d.cur {
+				if len(c.E) > mx {
+					mx = len(c.E)
+				}
+			}
+			sizes = append(sizes, mx)
+		}
+		// Equals on long lists that differ only near the end
+		for si, n := range []int{2047, 2049, 2050 + int(*seed%6)} {
+			n := n
+			scen(20000+si, func(d *driver, logged func(model.Op) model.Val) {
+				a := logged(model.Op{Op: "NewListOf", I: n, V: model.Val{K: "int", V: 1}}).V
+				b := logged(model.Op{Op: "Clone", R: a, V: none}).V
+				if *derived == 0 {
+					logged(model.Op{Op: "Equals", R: a, J: b, V: none})
+				}
+				logged(model.Op{Op: "Replace", R: b, I: n - 1 - d.rng.Intn(7), V: model.Val{K: "int", V: 2}})
+				if *derived == 0 {
+					logged(model.Op{Op: "Equals", R: a, J: b, V: none})
+					logged(model.Op{Op: "Equals", R: b, J: a, V: none})
+				}
+				// the same one level down
+				outerA := logged(model.Op{Op: "NewList", V: none, Vs: []model.Val{{K: "str", V: 1}, {K: "ref", V: a}}}).V
+				outerB := logged(model.Op{Op: "NewList", V: none, Vs: []model.Val{{K: "str", V: 1}, {K: "ref", V: b}}}).V
+				if *derived == 0 {
+					logged(model.Op{Op: "Equals", R: outerA, J: outerB, V: none})
+				}
+				logged(model.Op{Op: "ForEach", R: a, I: 8, V: none})
+				logged(model.Op{Op: "NativeCheck", R: outerB, V: none})
+			})
+		}
+		// nesting chains deeper than any depth limit an implementation might put on its recursions
+		for si, depth := range []int{140, 260} {
+			depth := depth
+			scen(21000+si, func(d *driver, logged func(model.Op) model.Val) {
+				cur := logged(model.Op{Op: "NewList", V: none, Vs: []model.Val{{K: "int", V: 7}}}).V
+				for k := 0; k < depth; k++ {
+					if k%2 == 0 {
+						cur = logged(model.Op{Op: "NewList", V: none, Vs: []model.Val{{K: "int", V: k % 5}, {K: "ref", V: cur}}}).V
+					} else {
+						cur = logged(model.Op{Op: "NewObject", V: none, Vs: []model.Val{{K: "str", V: 1}, {K: "ref", V: cur}}}).V
+					}
+				}
+				logged(model.Op{Op: "NativeCheck", R: cur, V: none})
+				var cl model.Val
+				if d.cur[cur-1].T == "L" {
+					cl = logged(model.Op{Op: "Clone", R: cur, V: none})
+				} else {
+					cl = logged(model.Op{Op: "CloneO", R: cur, V: none})
+				}
+				if *derived == 0 && cl.K == "ref" {
+					logged(model.Op{Op: "Equals", R: cur, J: cl.V, V: none})
+				}
+				logged(model.Op{Op: "NativeCheck", R: 1, V: none})
+			})
+		}
+	}
 	w.Flush()
 	f.Close()
 	sort.Ints(sizes)
@@ -722,6 +877,7 @@ func cmdRedrive(args []string) int {
 			NKeys   int      `json:"nkeys"`
 			Derived int      `json:"derived"`
 			CSeed   int64    `json:"cseed"`
+			Gen     int      `json:"gen"`
 		}
 		if len(sc.Bytes()) == 0 {
 			continue
@@ -734,8 +890,12 @@ func cmdRedrive(args []string) int {
 			if rec.NKeys == 0 {
 				rec.NKeys = 4
 			}
-			d = &driver{rng: rand.New(rand.NewSource(1)), real: heapx.New(conc.NewTF(rec.CSeed, rec.NKeys), nil, rec.NKeys, rec.Derived), nkeys: rec.NKeys, next: 1, maxList: 1 << 30, w: w}
-			fmt.Fprintf(w, "{\"t\":\"reset\",\"nkeys\":%d,\"derived\":%d,\"cseed\":%d}\n", rec.NKeys, rec.Derived, rec.CSeed)
+			tbl := conc.NewTF(rec.CSeed, rec.NKeys)
+			if rec.Gen == 1 {
+				tbl = conc.NewGen(rec.NKeys)
+			}
+			d = &driver{rng: rand.New(rand.NewSource(1)), real: heapx.New(tbl, nil, rec.NKeys, rec.Derived), nkeys: rec.NKeys, next: 1, maxList: 1 << 30, w: w}
+			fmt.Fprintf(w, "{\"t\":\"reset\",\"nkeys\":%d,\"derived\":%d,\"cseed\":%d,\"gen\":%d}\n", rec.NKeys, rec.Derived, rec.CSeed, rec.Gen)
 			continue
 		}
 		if d == nil || !d.real.Executable(rec.O) {
